@@ -238,7 +238,7 @@ def Committer.run : Nat → SC K B V → Committer K B V → SC K B V × Committ
 
 /-- `sc.commit(bc)` run without interruption: returns the new cache and whether the commit took effect -/
 def SC.commit (sc : SC K B V) (hash prev : B) (writes : List (K × Entry V)) : SC K B V × Bool :=
-  let (sc', c) := Committer.run (3 * writes.length + 3) sc ⟨hash, prev, writes, .linkcheck⟩
+  let (sc', c) := Committer.run (3 * writes.length + 5) sc ⟨hash, prev, writes, .linkcheck⟩
   (sc', match c.pc with | .done true => true | _ => false)
 
 end Threads
